@@ -20,6 +20,8 @@ type S struct {
 	Default string
 	Min     string
 	Max     string
+	Must    string // a must constraint (kept by the library in Entry.Extra)
+	Ext     string // argument of an extension statement x:note below the node
 	Kids    []*S
 }
 
@@ -88,6 +90,12 @@ func Render(s *S) string {
 	if s.Max != "" {
 		fmt.Fprintf(&sb, " max-elements %s;", s.Max)
 	}
+	if s.Must != "" {
+		fmt.Fprintf(&sb, " must %q;", s.Must)
+	}
+	if s.Ext != "" {
+		fmt.Fprintf(&sb, " x:note %q;", s.Ext)
+	}
 	for _, k := range s.Kids {
 		sb.WriteString(" " + Render(k))
 	}
@@ -138,6 +146,7 @@ type E struct {
 	TypeName string // name of the nearest typedef in the chain ("" if the leaf names a built-in directly)
 	Default  string
 	Min, Max string
+	Must, Ext string
 	Implicit bool // implicit case: its own namespace is not compared
 	Kids     map[string]*E
 	Parent   *E
@@ -329,6 +338,7 @@ func (w *World) expand(stmts []*S, sc *scope, e *E, ns string, depth int) {
 			n.Name = s.Kind
 		}
 		n.Cfg, n.Default, n.Min, n.Max = s.Cfg, s.Default, s.Min, s.Max
+		n.Must, n.Ext = s.Must, s.Ext
 		if s.Kind == "leaf" || s.Kind == "leaf-list" {
 			k, first, ok := w.resolveType(local, s.Type)
 			if !ok {
